@@ -228,4 +228,176 @@ kernel that changes its translation breaks them. -/
 theorem kernel_normalize (prof : Profile) (c : Int) (n : Nat) (hn : n < 256) :
     Gen.K.normalize prof c n = .ok (normalize c n) := Kernels.normalize_eq prof c n hn
 
+/-! ### algebraic laws: `checked_div` against `/` -/
+
+/-- `x / y` is `x.checked_div(y)` read as an operator: a zero divisor panics with the division-by-zero panic, `None` otherwise
+    becomes the overflow panic (all operands, modes, profiles) -/
+theorem div_eq_checked (prof : Profile) (tm : Mode) (x y : Dec) :
+    div prof tm x y = opOfChecked (eqZero y) (checkedDiv prof tm x y) := by
+  unfold div checkedDiv opOfChecked
+  cases hy : eqZero y
+  · simp only [Bool.false_eq_true, if_false]
+    cases hx : eqZero x
+    · simp only [Bool.false_eq_true, if_false]
+      cases eqOne y with
+      | panic k => rfl
+      | ok b =>
+        cases b
+        · simp only [Outcome.bind_ok, Bool.false_eq_true, if_false]
+          cases divCore prof tm x.coeff x.nfrac y.coeff y.nfrac with
+          | panic k => rfl
+          | ok o => cases o <;> rfl
+        · rfl
+    · rfl
+  · rfl
+
+/-- a zero divisor: `None` -/
+theorem checked_div_zero_divisor (prof : Profile) (tm : Mode) (x y : Dec) (hy : eqZero y = true) :
+    checkedDiv prof tm x y = .ok none := by
+  unfold checkedDiv
+  simp [hy]
+
+private theorem spec_div_ne_any (tm : Mode) (a : Int) (p : Nat) (b : Int) (q : Nat) :
+    Spec.div tm a p b q ≠ .any ∧ Spec.div tm a p b q ≠ .nfrac := by
+  unfold Spec.div
+  simp only []
+  have h1 := valFit_ne_any (Spec.specRoundQ tm (a * 10 ^ (18 + q)) (b * 10 ^ p)) 18
+  have h2 := (valFit_shape (Spec.specRoundQ tm (a * 10 ^ (18 + q)) (b * 10 ^ p)) 18).2.2
+  generalize Spec.valFit (Spec.specRoundQ tm (a * 10 ^ (18 + q)) (b * 10 ^ p)) 18 = e at h1 h2
+  constructor <;> (repeat' split) <;> simp_all
+
+/-- `checked_div` never panics on the domain -/
+theorem checked_div_no_panic (hw : C04.WideDiv) (prof : Profile) (tm : Mode) (x y : Dec) (hx : Dom x) (hy : Dom y) :
+    ∃ o, checkedDiv prof tm x y = .ok o :=
+  allowedChecked_no_panic _ _ (checked_div_spec hw prof tm x y hx hy) (spec_div_ne_any tm _ _ _ _).2 (spec_div_ne_any tm _ _ _ _).1
+
+/-- `Some(r)` exactly when `x / y` returns `r` (no hypothesis) -/
+theorem checked_div_some_iff (prof : Profile) (tm : Mode) (x y r : Dec) :
+    checkedDiv prof tm x y = .ok (some r) ↔ div prof tm x y = .ok r := by
+  rw [div_eq_checked, opOfChecked_eq_ok_iff]
+  constructor
+  · intro h
+    refine ⟨?_, h⟩
+    cases hy : eqZero y
+    · rfl
+    · rw [checked_div_zero_divisor prof tm x y hy] at h
+      simp at h
+  · exact fun h => h.2
+
+/-- `None` exactly when `x / y` panics — with the division-by-zero panic or the overflow panic -/
+theorem checked_div_none_iff (hw : C04.WideDiv) (prof : Profile) (tm : Mode) (x y : Dec) (hx : Dom x) (hy : Dom y) :
+    checkedDiv prof tm x y = .ok none ↔ (div prof tm x y = .panic .divzero ∨ div prof tm x y = .panic .overflow) := by
+  have hnp := checked_div_no_panic hw prof tm x y hx hy
+  rw [div_eq_checked, ← checked_none_iff_op_panic _ _ (fun _ => hnp), checkedOfChecked_eq_none_iff]
+  constructor
+  · exact fun h => Or.inr h
+  · rintro (h | h)
+    · exact checked_div_zero_divisor prof tm x y h
+    · exact h
+
+/-- the division-by-zero panic exactly for a zero divisor … -/
+theorem div_divzero_iff (hw : C04.WideDiv) (prof : Profile) (tm : Mode) (x y : Dec) (hx : Dom x) (hy : Dom y) :
+    div prof tm x y = .panic .divzero ↔ y.coeff = 0 := by
+  rw [div_eq_checked, op_divzero_iff _ _ (fun _ => checked_div_no_panic hw prof tm x y hx hy)]
+  simp [eqZero]
+
+/-- … and no other panic than these two -/
+theorem div_panic_kind (hw : C04.WideDiv) (prof : Profile) (tm : Mode) (x y : Dec) (k : PanicKind) (hx : Dom x) (hy : Dom y)
+    (h : div prof tm x y = .panic k) : k = .divzero ∨ k = .overflow := by
+  rw [div_eq_checked] at h
+  exact op_panic_kind _ _ k (fun _ => checked_div_no_panic hw prof tm x y hx hy) h
+
+/-- the integer shapes share one body between operator (`opOfChecked z body`) and checked variant (`checkedOfChecked z body`;
+    `C04.kernel_decimal_div_int` … tie both to the source): `Decimal / int`, `i` any i128 value … -/
+theorem div_dec_int_body_no_panic (hw : C04.WideDiv) (prof : Profile) (tm : Mode) (x : Dec) (i : Int) (hx : Dom x)
+    (hi : I128_MIN ≤ i ∧ i ≤ I128_MAX) (hi0 : decide (i = 0) = false) : ∃ o, divDecInt prof tm x i = .ok o := by
+  have hi0' : i ≠ 0 := by simpa using hi0
+  exact allowedChecked_no_panic _ _ (div_dec_int_spec hw prof tm x i hx hi hi0') (spec_div_ne_any tm _ _ _ _).2
+    (spec_div_ne_any tm _ _ _ _).1
+
+theorem checked_div_dec_int_none_iff (hw : C04.WideDiv) (prof : Profile) (tm : Mode) (x : Dec) (i : Int) (hx : Dom x)
+    (hi : I128_MIN ≤ i ∧ i ≤ I128_MAX) :
+    checkedOfChecked (decide (i = 0)) (divDecInt prof tm x i) = .ok none ↔
+      (opOfChecked (decide (i = 0)) (divDecInt prof tm x i) = .panic .divzero ∨
+        opOfChecked (decide (i = 0)) (divDecInt prof tm x i) = .panic .overflow) :=
+  checked_none_iff_op_panic _ _ (div_dec_int_body_no_panic hw prof tm x i hx hi)
+
+/-- … and `int / Decimal` (`i128::MIN` included); `Some(r)` exactly when the operator returns `r` is `checked_some_iff_op_ok` -/
+theorem div_int_dec_body_no_panic (hw : C04.WideDiv) (prof : Profile) (tm : Mode) (i : Int) (y : Dec) (hy : Dom y)
+    (hi : I128_MIN ≤ i ∧ i ≤ I128_MAX) (hy0 : eqZero y = false) : ∃ o, divIntDec prof tm i y = .ok o := by
+  have hy0' : y.coeff ≠ 0 := by simpa [eqZero] using hy0
+  exact allowedChecked_no_panic _ _ (div_int_dec_spec hw prof tm i y hy hi hy0') (spec_div_ne_any tm _ _ _ _).2
+    (spec_div_ne_any tm _ _ _ _).1
+
+theorem checked_div_int_dec_none_iff (hw : C04.WideDiv) (prof : Profile) (tm : Mode) (i : Int) (y : Dec) (hy : Dom y)
+    (hi : I128_MIN ≤ i ∧ i ≤ I128_MAX) :
+    checkedOfChecked (eqZero y) (divIntDec prof tm i y) = .ok none ↔
+      (opOfChecked (eqZero y) (divIntDec prof tm i y) = .panic .divzero ∨
+        opOfChecked (eqZero y) (divIntDec prof tm i y) = .panic .overflow) :=
+  checked_none_iff_op_panic _ _ (div_int_dec_body_no_panic hw prof tm i y hy hi)
+
+example : checkedDiv Profile.dev .heven ⟨10, 1⟩ ⟨4, 0⟩ = .ok (some ⟨25, 2⟩) ∧ div Profile.dev .heven ⟨10, 1⟩ ⟨4, 0⟩ = .ok ⟨25, 2⟩ ∧
+    checkedDiv Profile.dev .heven ⟨1, 0⟩ ⟨0, 5⟩ = .ok none ∧ div Profile.dev .heven ⟨1, 0⟩ ⟨0, 5⟩ = .panic .divzero ∧
+    checkedDiv Profile.release .heven Dec.MAX ⟨5, 1⟩ = .ok none ∧ div Profile.release .heven Dec.MAX ⟨5, 1⟩ = .panic .overflow := by
+  decide
+
+/-! ### algebraic laws: one, zero, `x / x` -/
+
+/-- `x / 1`, for every representation of one as divisor: the dividend UNCHANGED (value and representation) — except that every zero
+    dividend is returned as `Decimal::ZERO` (the zero test comes first); every `x` -/
+theorem div_one_right (prof : Profile) (tm : Mode) (x y : Dec) (hq : y.nfrac ≤ 18) (hy : y.coeff = (10 : Int) ^ y.nfrac) :
+    div prof tm x y = .ok (if x.coeff = 0 then Dec.ZERO else x) := by
+  unfold div
+  simp only [eqZero]
+  rw [C02.eqOne_eq y hq]
+  by_cases h0 : x.coeff = 0 <;> simp [h0, hy]
+
+theorem div_by_ONE (prof : Profile) (tm : Mode) (x : Dec) : div prof tm x Dec.ONE = .ok (if x.coeff = 0 then Dec.ZERO else x) :=
+  div_one_right prof tm x Dec.ONE (by decide) (by decide)
+
+/-- `0 / y = Decimal::ZERO` for every representation of zero and every non-zero `y` (nothing else is evaluated);
+    with a zero divisor the division-by-zero panic wins -/
+theorem zero_div (prof : Profile) (tm : Mode) (x y : Dec) (hx : x.coeff = 0) (hy : y.coeff ≠ 0) :
+    div prof tm x y = .ok Dec.ZERO := by
+  unfold div
+  simp [eqZero, hx, hy]
+
+theorem div_by_zero (prof : Profile) (tm : Mode) (x y : Dec) (hy : y.coeff = 0) : div prof tm x y = .panic .divzero := by
+  unfold div
+  simp [eqZero, hy]
+
+/-- `x / x` for a non-zero `x` of the domain: `Decimal::ONE` — in every mode and profile, through the 256-bit path for large
+    coefficients — except that a representation of one is returned unchanged by the divisor-equals-one short cut (`1.0 / 1.0 = 1.0`) -/
+theorem div_self_one (hw : C04.WideDiv) (prof : Profile) (tm : Mode) (x : Dec) (hx : Dom x) (h0 : x.coeff ≠ 0) :
+    div prof tm x x = .ok (if x.coeff = (10 : Int) ^ x.nfrac then x else Dec.ONE) := by
+  by_cases hone : x.coeff = (10 : Int) ^ x.nfrac
+  · rw [div_one_right prof tm x x hx.2.2 hone, if_neg h0, if_pos hone]
+  · have hs := div_spec hw prof tm x x hx hx
+    have e : Spec.div tm x.coeff x.nfrac x.coeff x.nfrac = .val 1 0 := by
+      unfold Spec.div
+      simp only [h0, if_false, C02.isOne_eq, hone, decide_false, Bool.false_eq_true]
+      have e1 : x.coeff * (10 : Int) ^ (18 + x.nfrac) = (10 : Int) ^ 18 * (x.coeff * (10 : Int) ^ x.nfrac) := by
+        rw [Int.pow_add]; ring
+      have hd : x.coeff * (10 : Int) ^ x.nfrac ≠ 0 := Int.mul_ne_zero h0 (Int.ne_of_gt (pow10_pos _))
+      rw [e1, specRoundQ_exact_mul tm _ _ hd]
+      decide
+    rw [e] at hs
+    simp only [hone, if_false]
+    exact ok_of_allowed_val hs
+
+/-- the value of `x / x` is one in both cases: the result is a representation of one -/
+theorem div_self_value (hw : C04.WideDiv) (prof : Profile) (tm : Mode) (x : Dec) (hx : Dom x) (h0 : x.coeff ≠ 0) :
+    ∃ r, div prof tm x x = .ok r ∧ r.coeff = (10 : Int) ^ r.nfrac := by
+  rw [div_self_one hw prof tm x hx h0]
+  by_cases hone : x.coeff = (10 : Int) ^ x.nfrac
+  · exact ⟨x, by simp [hone], hone⟩
+  · exact ⟨Dec.ONE, by simp [hone], by decide⟩
+
+example : div Profile.dev .up ⟨-25, 1⟩ Dec.ONE = .ok ⟨-25, 1⟩ ∧ div Profile.dev .up ⟨-2500, 3⟩ ⟨100, 2⟩ = .ok ⟨-2500, 3⟩ ∧
+    div Profile.dev .up ⟨0, 3⟩ Dec.ONE = .ok ⟨0, 0⟩ ∧ div Profile.release .floor ⟨0, 7⟩ ⟨-3, 1⟩ = .ok ⟨0, 0⟩ ∧
+    div Profile.release .floor ⟨0, 7⟩ ⟨0, 1⟩ = .panic .divzero := by decide
+example : div Profile.dev .heven ⟨-25, 1⟩ ⟨-25, 1⟩ = .ok ⟨1, 0⟩ ∧ div Profile.release .r05up Dec.MAX Dec.MAX = .ok ⟨1, 0⟩ ∧
+    div Profile.dev .ceil ⟨I128_MIN + 1, 18⟩ ⟨I128_MIN + 1, 18⟩ = .ok ⟨1, 0⟩ ∧
+    div Profile.dev .heven ⟨100, 2⟩ ⟨100, 2⟩ = .ok ⟨100, 2⟩ := by decide
+
 end Fpdec.Props.C03
